@@ -304,4 +304,52 @@ def run(an: Analysis, rep):
             rep.add("R16.4", f"{fn.qual}::--{dest.replace('_', '-')} {what}", False, loc(m, fn.node), f"no {what} guarded by the option found")
             continue
         guard_env_check(stmt_of(node), dest, True, what)
+    # ---- R16.5 the only error exit is the usage validation
+    rep.rule("R16.5", "for a valid program the entry point has no other exit path than falling off its end", 1)
+    exits = []
+    for c in ast.walk(fn.node):
+        if isinstance(c, ast.Call):
+            nm = attr_chain(c.func) or ""
+            if nm.split(".")[-1] in ("exit", "_exit", "quit", "abort") or nm in ("parser.error",):
+                if not any(c is x for x in ast.walk(vnode)):
+                    exits.append(c)
+        if isinstance(c, ast.Raise) and c.exc is not None and "SystemExit" in {x.id for x in ast.walk(c.exc) if isinstance(x, ast.Name)}:
+            exits.append(c)
+    rep.add("R16.5", f"{fn.qual}::no exit call after the usage validation", not exits, loc(m, exits[0]) if exits else loc(m, fn.node),
+            f"`{norm_src(exits[0])}` ends the program with its own status after the source was accepted: a valid program can make the command exit non-zero" if exits
+            else "the only exit call is the usage error of the source validation")
+    # ---- R16.6 the program named by -m / file is decoded, not executed; R16.7 the text compiled is the text given
+    rep.rule("R16.6", "the program is compiled / located, never imported or executed (except -e, which is evaluated by design)", 3)
+    node = chain
+    i = 0
+    while True:
+        d = ddests[i]
+        calls = [c for b in node.body for c in ast.walk(b) if isinstance(c, ast.Call)]
+        names = [(attr_chain(c.func) or "").split(".")[-1] for c in calls]
+        banned = {"import_module", "__import__", "exec", "run_module", "run_path", "exec_module", "load_module"} | (set() if d == "e" else {"eval"})
+        hit = [c for c, nm in zip(calls, names) if nm in banned]
+        rep.add("R16.6", f"{fn.qual}::option {d} does not execute the program", not hit, loc(m, hit[0]) if hit else loc(m, node),
+                f"the arm for option `{d}` calls `{norm_src(hit[0])}`: the program is executed (its output and side effects precede the result; a program that cannot run here "
+                f"makes the command fail) instead of being compiled" if hit else f"the arm for `{d}` only locates / reads / compiles the program")
+        if d == "file":
+            comp = [c for c in calls if isinstance(c.func, ast.Name) and c.func.id == "compile"]
+            ok = False
+            why = "compile(...) call not found"
+            if comp and comp[0].args:
+                src = comp[0].args[0]
+                while isinstance(src, ast.Call) and isinstance(src.func, ast.Name) and src.func.id == "cast" and len(src.args) == 2:
+                    src = src.args[1]
+                defs = [s_ for b in node.body for s_ in ast.walk(b) if isinstance(s_, ast.Assign) and isinstance(src, ast.Name) and any(isinstance(t, ast.Name) and t.id == src.id for t in s_.targets)]
+                val = defs[0].value if len(defs) == 1 else (src if not isinstance(src, ast.Name) else None)
+                direct = isinstance(val, ast.Call) and isinstance(val.func, ast.Attribute) and val.func.attr in ("read_text", "read") \
+                    and any(isinstance(x, ast.Name) and umap.get(x.id) == "file" for x in ast.walk(val.func.value))
+                ok = bool(direct)
+                why = f"compile() receives `{norm_src(val) if val is not None else norm_src(src)}`, the file's text as read" if ok else \
+                    f"compile() receives `{norm_src(val) if val is not None else norm_src(src)}`, not the file's text as read: the program decoded is a rewritten one (line numbers / string contents can differ)"
+            rep.add("R16.6", f"{fn.qual}::the file's text is compiled unmodified", ok, loc(m, node), why)
+        i += 1
+        if len(node.orelse) == 1 and isinstance(node.orelse[0], ast.If):
+            node = node.orelse[0]
+        else:
+            break
     rep.stats.update(an.stats([it]))
